@@ -193,8 +193,12 @@ func drawInitial(rt *rapid.T, maxID int) refmodel.Conf {
 func TestC13(t *testing.T) {
 	rep := report.New("C13", "programs: a drawn valid non-joint config over ids {1..5} followed by 1..30 ConfChangeV2 operations (0..4 singles of any type over ids {0..6}, any transition), dispatched exactly like raft.applyConfChange; oracle = independent set-based reference model (accept/reject + result), invariants, input purity, ConfState round trip through the wire; non-trivial = the program entered and left a joint config, or demoted an outgoing voter, or had a rejected op followed by an accepted one; distinct = digest of the program")
 	defer rep.Write()
+	rapid.Check(t, c13Prop(rep))
+}
+
+func c13Prop(rep *report.R) func(*rapid.T) {
 	failed := false
-	rapid.Check(t, func(rt *rapid.T) {
+	return func(rt *rapid.T) {
 		model := drawInitial(rt, 5)
 		trk, err := trackerFor(model)
 		if err != nil {
@@ -264,7 +268,7 @@ func TestC13(t *testing.T) {
 			}
 			rep.Case((entered && left) || demotedOutgoing || rejThenAcc, report.Digest(strings.Join(prog, ";")), cls, func() string { return strings.Join(prog, " ; ") })
 		}
-	})
+	}
 }
 
 // TestC13Closure enumerates the reachable configuration space over a small
